@@ -1,11 +1,24 @@
 """
 Facts about jsonrpclib/jsonclass.py and the type tables of jsonrpclib/utils.py (C07, C08, C15, C20).
+
+The functions are read in the normal form of tools/extractors/normalise_jc.py (private helpers inlined, idioms with the
+same meaning brought to the same shape), and the facts that are statements about control flow ("the tests precede the
+import") are computed by its path walk: a behaviour-preserving respelling leaves the facts as they are, an edit that
+changes a guard, an argument or an order changes them as before.
 """
 import ast
+import os
+import sys
 
 from __main__ import Fact, lean_str, lean_bool, lean_list
 
+sys.path.insert(0, os.path.dirname(os.path.abspath(__file__)))
+import normalise_jc as NZ  # noqa: E402
+
 PROPERTIES = ["C07", "C08", "C15", "C20"]
+
+# private functions the facts name themselves (`slotsFinder`, "the result of _find_fields(obj)"): never inlined
+KEEP = ("_find_fields", "_slots_finder")
 
 
 def _parents(fn):
@@ -17,14 +30,27 @@ def _parents(fn):
 
 
 def _calls_to(fn, name):
-    return [n for n in ast.walk(fn) if isinstance(n, ast.Call) and isinstance(n.func, ast.Name) and n.func.id == name]
+    """In source order (the order of a depth-first walk: positions are meaningless once helpers are inlined)."""
+    return [n for n in NZ.dfs(fn) if isinstance(n, ast.Call) and isinstance(n.func, ast.Name) and n.func.id == name]
 
 
-def _site(call, par):
-    """Where a recursive call sits: list comprehension, dict comprehension, argument of setattr / attrs[...] = …"""
+def _site(call, par, fn=None):
+    """Where a recursive call sits: list comprehension, dict comprehension, argument of setattr / attrs[...] = …
+    (`v = load(…)` whose only use is `setattr(o, k, v)` / `d[k] = v` counts as that use)."""
     n = call
     while n in par:
         p = par[n]
+        if fn is not None and isinstance(p, ast.Assign) and p.value is n and len(p.targets) == 1 \
+                and isinstance(p.targets[0], ast.Name):
+            var = p.targets[0].id
+            uses = [m for m in NZ.dfs_own(fn) if isinstance(m, ast.Name) and m.id == var and isinstance(m.ctx, ast.Load)]
+            stores = [m for m in NZ.dfs_own(fn) if isinstance(m, ast.Name) and m.id == var and not isinstance(m.ctx, ast.Load)]
+            if len(uses) == 1 and len(stores) == 1 and uses[0] in par and uses[0] is not call:
+                u = par[uses[0]]
+                if isinstance(u, ast.Call) and isinstance(u.func, ast.Name) and u.func.id == "setattr" and uses[0] in u.args:
+                    return "setattr"
+                if isinstance(u, ast.Assign) and u.value is uses[0] and any(isinstance(t, ast.Subscript) for t in u.targets):
+                    return "field"
         if isinstance(p, ast.ListComp):
             return "list"
         if isinstance(p, ast.DictComp):
@@ -43,10 +69,10 @@ def _load_calls(fn):
     """[(site, forwards `classes`)] for the recursive load(...) calls, in source order."""
     par = _parents(fn)
     out = []
-    for c in sorted(_calls_to(fn, "load"), key=lambda c: (c.lineno, c.col_offset)):
+    for c in _calls_to(fn, "load"):
         fw = (len(c.args) >= 2 and isinstance(c.args[1], ast.Name) and c.args[1].id == "classes") or any(
             k.arg == "classes" and isinstance(k.value, ast.Name) and k.value.id == "classes" for k in c.keywords)
-        out.append((_site(c, par), bool(fw)))
+        out.append((_site(c, par, fn), bool(fw)))
     return out
 
 
@@ -55,11 +81,11 @@ def _dump_calls(fn):
     par = _parents(fn)
     want = ["serialize_method", "ignore_attribute", "ignore", "config"]
     out = []
-    for c in sorted(_calls_to(fn, "dump"), key=lambda c: (c.lineno, c.col_offset)):
+    for c in _calls_to(fn, "dump"):
         names = [a.id if isinstance(a, ast.Name) else None for a in c.args[1:]]
         kw = dict((k.arg, k.value.id if isinstance(k.value, ast.Name) else None) for k in c.keywords)
         got = names + [kw.get(w) for w in want[len(names):]]
-        out.append((_site(c, par), got == want))
+        out.append((_site(c, par, fn), got == want))
     return out
 
 
@@ -130,42 +156,68 @@ def _sub_call(value, compiled):
     return None
 
 
+def _resolves_class(n):
+    """A call of __import__ / import_module, or a subscript of the local class table `classes`."""
+    if isinstance(n, ast.Call):
+        f = n.func
+        return (isinstance(f, ast.Name) and f.id in ("__import__", "import_module")) \
+            or (isinstance(f, ast.Attribute) and f.attr == "import_module")
+    return isinstance(n, ast.Subscript) and isinstance(n.value, ast.Name) and n.value.id == "classes"
+
+
+def _is_translation_error(st):
+    exc = st.exc if isinstance(st, ast.Raise) else None
+    if isinstance(exc, ast.Call):
+        exc = exc.func
+    return isinstance(exc, ast.Name) and exc.id == "TranslationError"
+
+
 def _validation_precedes_import(fn, src=None):
     """`clean = re.sub(INVALID_MODULE_CHARS, "", name)` (or the same through a module-level
-    `re.compile(INVALID_MODULE_CHARS)`); `if not name: raise TranslationError` and
-    `if clean != name: raise TranslationError` both come, at the top level of `load`, before the first statement
-    that contains a call of __import__ or a subscript of `classes` (local names are not significant)."""
-    imp_idx = None
-    sub = None  # (clean, name)
+    `re.compile(INVALID_MODULE_CHARS)`), and on EVERY path of `load` to the first statement that resolves the class (a
+    call of __import__ / import_module, a subscript of `classes`) both `name` has been found true and `clean == name`
+    has been found to hold; the paths on which one of the two tests fails leave, before any resolution, by
+    `raise TranslationError`.  The shape of the tests (guard clause, nested `if`, `elif`, one combined condition, a
+    helper that raises) and the local names are not significant; their outcome and their order with respect to the
+    resolution are."""
     compiled = _compiled_patterns(src)
-    for st in fn.body:
-        if isinstance(st, ast.Assign) and len(st.targets) == 1 and isinstance(st.targets[0], ast.Name):
-            name = _sub_call(st.value, compiled)
+    sub = None  # (clean, name)
+    for n in NZ.dfs_own(fn):
+        if isinstance(n, ast.Assign) and len(n.targets) == 1 and isinstance(n.targets[0], ast.Name):
+            name = _sub_call(n.value, compiled)
             if name is not None:
-                sub = (st.targets[0].id, name)
+                sub = (n.targets[0].id, name)
+    try:
+        walk = NZ.Walk(NZ.strip_doc(fn.body), _resolves_class)
+    except NZ.TooComplex:
+        return None
+    if not walk.hits:
+        return None
     if sub is None:
         return False
-    kinds = {}
-    for idx, st in enumerate(fn.body):
-        resolves = any((isinstance(n, ast.Call) and isinstance(n.func, ast.Name) and n.func.id == "__import__")
-                       or (isinstance(n, ast.Subscript) and isinstance(n.value, ast.Name) and n.value.id == "classes")
-                       for n in ast.walk(st))
-        if imp_idx is None and resolves:
-            imp_idx = idx
-        if isinstance(st, ast.If) and st.body and isinstance(st.body[0], ast.Raise):
-            exc = st.body[0].exc
-            if isinstance(exc, ast.Call) and isinstance(exc.func, ast.Name) and exc.func.id == "TranslationError":
-                t = st.test
-                if isinstance(t, ast.Compare) and len(t.ops) == 1 and isinstance(t.ops[0], ast.NotEq):
-                    names = sorted(x.id for x in [t.left] + t.comparators if isinstance(x, ast.Name))
-                    if names == sorted(sub):
-                        kinds.setdefault("chars", idx)
-                if isinstance(t, ast.UnaryOp) and isinstance(t.op, ast.Not) and isinstance(t.operand, ast.Name) \
-                        and t.operand.id == sub[1]:
-                    kinds.setdefault("empty", idx)
-    if imp_idx is None:
+
+    def kind(e):
+        if isinstance(e, ast.Name) and e.id == sub[1]:
+            return "empty"
+        if isinstance(e, ast.Compare) and len(e.ops) == 1 and isinstance(e.ops[0], ast.Eq):
+            names = sorted(x.id for x in [e.left] + e.comparators if isinstance(x, ast.Name))
+            if names == sorted(sub) and len(names) == 2:
+                return "chars"
         return None
-    return "chars" in kinds and "empty" in kinds and kinds["chars"] < imp_idx and kinds["empty"] < imp_idx
+
+    for conds, _ in walk.hits:
+        passed = set(kind(e) for e, outcome, _ in conds if outcome)
+        failed = set(kind(e) for e, outcome, _ in conds if not outcome)
+        if not ("empty" in passed and "chars" in passed) or "empty" in failed or "chars" in failed:
+            return False
+    # the failing outcomes are reported as TranslationError
+    rejected = set()
+    for conds, st in walk.exits:
+        if conds and not conds[-1][1] and kind(conds[-1][0]) is not None:
+            if not _is_translation_error(st):
+                return False
+            rejected.add(kind(conds[-1][0]))
+    return rejected == {"empty", "chars"}
 
 
 def _jc_subscript(t):
@@ -258,22 +310,71 @@ def _type_tables(src):
     return env["ITERABLE_TYPES"], env["PRIMITIVE_TYPES"], supported
 
 
+def _str_method_test(e, var, method):
+    """`<var>.<method>("__")`"""
+    return isinstance(e, ast.Call) and isinstance(e.func, ast.Attribute) and e.func.attr == method \
+        and isinstance(e.func.value, ast.Name) and e.func.value.id == var and len(e.args) == 1 \
+        and isinstance(e.args[0], ast.Constant) and e.args[0].value == "__"
+
+
+def _mangles(fn, clazz):
+    """There is a `"_{0}{1}".format(<clazz>.__name__.lstrip("_"), <slot>)` — <clazz> being the class visited, the
+    first parameter — and every path of the slot loop to it has found `<slot>.startswith("__")` true and
+    `<slot>.endswith("__")` false (whatever the spelling of the test; a helper is read in place)."""
+    found = False
+    for loop in NZ.dfs_own(fn):
+        if not isinstance(loop, ast.For):
+            continue
+        for f in NZ.dfs_own(loop):
+            if not (isinstance(f, ast.Call) and isinstance(f.func, ast.Attribute) and f.func.attr == "format"
+                    and isinstance(f.func.value, ast.Constant) and f.func.value.value == "_{0}{1}" and len(f.args) == 2
+                    and not f.keywords and isinstance(f.args[1], ast.Name)):
+                continue
+            a = f.args[0]
+            own_name = isinstance(a, ast.Call) and isinstance(a.func, ast.Attribute) and a.func.attr == "lstrip" \
+                and len(a.args) == 1 and isinstance(a.args[0], ast.Constant) and a.args[0].value == "_" \
+                and isinstance(a.func.value, ast.Attribute) and a.func.value.attr == "__name__" \
+                and isinstance(a.func.value.value, ast.Name) and a.func.value.value.id == clazz
+            if not own_name:
+                return False
+            slot = f.args[1].id
+            try:
+                walk = NZ.Walk(loop.body, lambda n, f=f: n is f)
+            except NZ.TooComplex:
+                return False
+            if not walk.hits:
+                return False
+            for conds, _ in walk.hits:
+                if not any(_str_method_test(e, slot, "startswith") and o for e, o, _ in conds):
+                    return False
+                if not any(_str_method_test(e, slot, "endswith") and not o for e, o, _ in conds):
+                    return False
+                if any(_str_method_test(e, slot, "startswith") and not o for e, o, _ in conds) \
+                        or any(_str_method_test(e, slot, "endswith") and o for e, o, _ in conds):
+                    return False
+            found = True
+    return found
+
+
 def _slots_finder(fn):
     """(reads only the class's own `vars(clazz)` slots, mangles private names with clazz.__name__.lstrip("_"),
     recurses into clazz.__bases__)"""
+    single = NZ.single_assignments(fn)
+    clazz = fn.args.args[0].arg if fn.args.args else None  # the class being visited
     own = False
     for n in ast.walk(fn):
-        if isinstance(n, ast.For) and isinstance(n.iter, ast.Call) and isinstance(n.iter.func, ast.Attribute) \
-                and n.iter.func.attr == "get":
-            v = n.iter.func.value
-            if isinstance(v, ast.Call) and isinstance(v.func, ast.Name) and v.func.id == "vars" and n.iter.args \
-                    and isinstance(n.iter.args[0], ast.Constant) and n.iter.args[0].value == "__slots__":
-                own = True
+        if isinstance(n, (ast.For, ast.comprehension)):
+            it = NZ.resolve(n.iter, single)
+            if isinstance(it, ast.Call) and isinstance(it.func, ast.Attribute) and it.func.attr == "get":
+                v = it.func.value
+                if isinstance(v, ast.Call) and isinstance(v.func, ast.Name) and v.func.id == "vars" and len(v.args) == 1 \
+                        and isinstance(v.args[0], ast.Name) and v.args[0].id == clazz and it.args \
+                        and isinstance(it.args[0], ast.Constant) and it.args[0].value == "__slots__":
+                    own = True
     uses_inherited = any(isinstance(n, ast.Attribute) and n.attr == "__slots__" for n in ast.walk(fn))
-    text = ast.dump(fn)
-    mangles = ("startswith" in text and "endswith" in text and "lstrip" in text and "__name__" in text
-               and any(isinstance(n, ast.Constant) and n.value == "_{0}{1}" for n in ast.walk(fn)))
-    recurses = any(isinstance(n, ast.For) and isinstance(n.iter, ast.Attribute) and n.iter.attr == "__bases__"
+    mangles = _mangles(fn, clazz)
+    recurses = any(isinstance(n, ast.For) and isinstance(NZ.resolve(n.iter, single), ast.Attribute)
+                   and NZ.resolve(n.iter, single).attr == "__bases__"
                    and _calls_to(n, "_slots_finder") for n in ast.walk(fn))
     return (own and not uses_inherited, bool(mangles), bool(recurses))
 
@@ -379,9 +480,9 @@ def _handler_first(fn):
 
 
 def facts(src):
-    load = src.func("jsonclass", "load")
-    dump = src.func("jsonclass", "dump")
-    sf = src.func("jsonclass", "_slots_finder")
+    load = NZ.normalised(src, "jsonclass", "load", KEEP)
+    dump = NZ.normalised(src, "jsonclass", "dump", KEEP)
+    sf = NZ.normalised(src, "jsonclass", "_slots_finder", KEEP)
     out = []
 
     lc = _load_calls(load) if load is not None else None
